@@ -155,6 +155,11 @@ class BareIndicator:
     params = dict(self=SELF, requirement_indicator=IND)
     raises = {}
 
+    def call_native(args):
+        # the method is wrapped by lark's v_args(inline=True): it is called with the list of children
+        from ahbicht.expressions.ahb_expression_evaluation import AhbExpressionTransformer
+        return AhbExpressionTransformer().requirement_indicator([args["requirement_indicator"]])
+
     def post_fulfilled_unconditional(self, requirement_indicator, result):
         rc = result.requirement_constraint_evaluation_result
         fc = result.format_constraint_evaluation_result
